@@ -47,12 +47,18 @@ struct HTableCtr : Ctr {
     r.set("ok", J::Int(ok)); r.set("out", J::Int(out)); r.set("d", J::Ints(d)); r.set("dk", J::Ints(dk));
     return r;
   }
-  static std::string skey(long k) { return (k % 2 ? "KEY" : "key") + std::to_string(k / 2); }
-  static long        skey_inv(const char *s) {
+  // string keys: ids 2n and 2n+1 are two SPELLINGS of the same key n, differing only in letter case
+  // ("key7" / "KEY7", "key8" / "kEy8"): strvp and dict compare keys case-insensitively
+  static std::string skey(long k) {
+    long n = k / 2;
+    return (k % 2 == 0 ? "key" : (n % 2 ? "KEY" : "kEy")) + std::to_string(n);
+  }
+  static long skey_inv(const char *s) {
     if (!s || strlen(s) < 4) return -3;
     long base = atol(s + 3);
-    return base * 2 + (s[0] == 'K' ? 1 : 0);
+    return base * 2 + ((s[0] == 'k' && s[1] == 'e' && s[2] == 'y') ? 0 : 1);
   }
+  bool ci() const { return strvp || dict; }
   static std::string sval(long v) { return "v" + std::to_string(v); }
   static long        sval_inv(const char *s) { return (s && s[0] == 'v') ? atol(s + 1) : -1; }
   static size_t      zkey(long k) { return (size_t)k * 1000003u + 17u; }
@@ -70,6 +76,14 @@ struct HTableCtr : Ctr {
     else if (kind == "vpvp") live = (vpvp = ares_htable_vpvp_create(key_free, val_free)) != nullptr;
     else if (kind == "vpstr") live = (vpstr = ares_htable_vpstr_create()) != nullptr;
     else if (kind == "dict") live = (dict = ares_htable_dict_create()) != nullptr;
+    // create [kind, nkeys, prefill]: prefill filler entries (key ids 2*nkeys + 2i, values 100000 + i) are put in
+    // first, so that a short script runs on a table that has already grown (13th key: 32 buckets, 25th: 64)
+    long prefill = op.at_int(3, 0);
+    for (long i = 0; live && i < prefill; i++) {
+      J ins = op_make("insert", 2 * nkeys + 2 * i, 100000 + i);
+      exec(ins);
+    }
+    d.clear(); dk.clear();
     return res(-1, -1);
   }
   bool alive() override { return live; }
@@ -209,18 +223,23 @@ struct HTableCtr : Ctr {
   J randcreate(Rng &r, long nk) override {
     static const char *kinds[] = {"gen", "gen", "strvp", "szvp", "asvp", "vpvp", "vpstr", "dict"};
     J                  op      = op_make("create");
-    op.push(J::Str(kinds[r.below(8)]));
-    op.push(J::Int(nk));
+    std::string k = kinds[r.below(8)];
+    op.push(J::Str(k));
+    // case-insensitive kinds: twice the ids (two spellings per key), so that nk distinct keys can be live
+    op.push(J::Int(k == "strvp" || k == "dict" ? 2 * nk : nk));
+    op.push(J::Int(0));
     return op;
   }
-  J randop(Rng &r, long nk, long, long) override {
-    long n = (long)do_num();
+  J randop(Rng &r, long nk0, long, long) override {
+    long n  = (long)do_num();
+    long nk = nk0;          // distinct keys that can be live
+    long ids = nkeys;       // key ids of this table (2 * nk for the case-insensitive kinds)
     // phases: fill (so the table grows/rehashes several times), drain, mixed
     if (n == 0) phase = r.chance(70) ? 0 : 2;
     if (n >= nk - nk / 8) phase = 1 + (int)r.below(2);
     long pins = phase == 0 ? 75 : phase == 1 ? 10 : 40;
     long x    = r.below(100);
-    long k    = r.below(nk);
+    long k    = r.below(ids);
     if (x < pins) return op_make("insert", k, nextv++);
     x = r.below(100);
     if (x < 50) return op_make("remove", k);
